@@ -21,15 +21,18 @@ MANIFEST = {
             'secure product strictly within one unit on both the truncating and the skip-truncation path; public-integer factor '
             'exact; public-float factor within 1+|x|/2 <= 2(1+|x|) units (trailing-zero stripping modelled); + - neg < == exact. '
             'The model is run against the real multi-party implementation (simulator, 6 configurations, 5 types) every run, and '
-            'all operations incl. division, reciprocal, pow, sin/cos are checked against an exact rational oracle.',
+            'all operations incl. division, reciprocal, pow, sin/cos are checked against an exact rational oracle; '
+            'compositions (mpc.prod over every whole/fractional pattern of length 2..6, sum, in_prod, schur_prod, scalar_mul, '
+            'matrix_prod on mixed lists, x**n for n<=6, chains (a*b)*c, a*(b*c), (a*b)/c; m=1 and m=3) are checked against '
+            'the bounds composed along the operation tree.',
     'note': 'Trusted: Coq kernel+vm_compute; scaled-integer model (field wrap-around excluded by in-range hypotheses; Shamir '
             'sharing/resharing abstracted: the simulator runs the real protocols); Python float round(b*2^f) is an input of the '
             'model. NOT proved in Coq: pow_bound, division/reciprocal (_rec/_norm Newton iteration), sin/cos: implementation-level '
             'oracle only. Known findings (recorded from the implementation, not modelled): F-C02-1 division/reciprocal error '
             'grows like 1/|y| and exceeds 16(1+|x|) units for |y| < 2^-5; F-C02-2 division returns 0 for every input on '
             'types with l > 2f+1 (normalisation constant 2^(f-l+1) rounds to 0); F-C02-3 sin/cos error grows like |x| '
-            '(> 4 units for |x| >= 128 on all types); F-C02-4 mpc.trunc(list) keeps no copy of its list argument, so a caller that '
-            'reverses/overwrites its list after the call (before the result is used) gets the truncation of the modified list.',
+            '(> 4 units for |x| >= 128 on all types); F-C02-4 (mpc.trunc(list) read the caller\'s list after returning) was repaired in /repo by '
+            'df316c0 and is an ordinary case now (trunc of a list followed by reverse/overwrite of the caller\'s list).',
     'technique': 'Coq proof over scaled-integer model + multi-party simulator correspondence (vm_compute) + exact rational oracle',
 }
 
@@ -327,6 +330,172 @@ def alias_stream(ctx, Sim):
                                    'expected_floor': [v // 2 ** k for v in vals], 'wrong_positions': bad})
 
 
+# --------------------------------------------------------------------------------------------
+# compositions: results of n-ary operations and chains against the composed C02 bounds
+
+def comp_values(l, f, n, mask, shift=0):
+    """bit i of mask set -> position i a whole number, else a generic fraction (scaled ints)"""
+    U = 2 ** f
+    W = [3, -1, 2, 1, -2, 1, 2]
+    F = [U // 10 + 1, (3 * U) // 10 + 1, (7 * U) // 10 + 1, U + U // 10 + 1, -(U - U // 10 - 1), (3 * U) // 4 + 1, -(U + U // 4) - 1]
+    out = []
+    for i in range(n):
+        j = (i + shift) % 7
+        out.append(W[j] * U if (mask >> i) & 1 else F[j])
+    return out
+
+
+def prod_bound(xs, U):
+    """Exact product (scaled) and the composed bound in units along the pairing tree of runtime.prod:
+    each multiplication adds at most one unit and propagates |a| e_b + |b| e_a + e_a e_b."""
+    vals = [(Fr(x, U), Fr(0)) for x in xs]          # (true value, error bound in units of 2^-f... as value*U)
+    n = len(vals)
+    while n > 1:
+        h = []
+        for i in range(n % 2, n, 2):
+            (a, ea), (b, eb) = vals[i], vals[i + 1]
+            h.append((a * b, abs(a) * eb + abs(b) * ea + ea * eb / U + 1))
+        vals[n % 2:] = h
+        n = len(vals)
+    return vals[0][0] * U, vals[0][1]
+
+
+def make_comp_prog(l, f, nmax, nlist, shared, results):
+    U = 2 ** f
+
+    async def prog(mpc, mods, pid):
+        secfxp = mpc.SecFxp(l, f)
+        out = []
+
+        def mk(v):
+            a = secfxp(v // U) if v % U == 0 else secfxp(secfxp.field(v))
+            return mpc.input(a, senders=0) if shared else a
+
+        async def emit(op, ins, z, extra=None):
+            zs = z if isinstance(z, list) else [z]
+            flat = [a for r in zs for a in (r if isinstance(r, list) else [r])]
+            out.append([op, ins, [int(v) for v in await mpc.output(flat, raw=True)], extra])
+        for n in range(2, nmax + 1):
+            for mask in range(2 ** n):
+                xs = comp_values(l, f, n, mask)
+                ys = comp_values(l, f, n, (mask * 3 + 1) % (2 ** n), shift=2)
+                try:
+                    X = [mk(v) for v in xs]
+                    await emit('prod', xs, mpc.prod(X))
+                    if n <= nlist:
+                        Y = [mk(v) for v in ys]
+                        await emit('sum', xs, mpc.sum(X))
+                        await emit('in_prod', [xs, ys], mpc.in_prod(X, Y))
+                        await emit('schur_prod', [xs, ys], mpc.schur_prod(X, Y))
+                        await emit('scalar_mul', [ys[0], xs], mpc.scalar_mul(mk(ys[0]), X))
+                        if n == 2:
+                            A = [xs, ys]
+                            B = [ys, comp_values(l, f, 2, mask ^ 1, shift=4)]
+                            await emit('matrix_prod', [A, B], mpc.matrix_prod([[mk(v) for v in r] for r in A], [[mk(v) for v in r] for r in B]))
+                        if n == 3:
+                            a, b, c = X
+                            await emit('chain (a*b)*c', xs, (a * b) * c)
+                            await emit('chain a*(b*c)', xs, a * (b * c))
+                            if abs(xs[2]) >= U // 4 and l <= 2 * f + 1:
+                                await emit('chain (a*b)/c', xs, (a * b) / c)
+                except Exception as exc:  # noqa
+                    out.append(['EXC', [n, mask], repr(exc)[:200], None])
+        for x in comp_values(l, f, 7, 0) + comp_values(l, f, 7, 127):
+            for k in range(1, 7):
+                if abs(Fr(x, U)) ** k < 2 ** (l - f - 3):
+                    try:
+                        await emit('pow', [x], mk(x) ** k, extra=k)
+                    except Exception as exc:  # noqa
+                        out.append(['EXC', [x, k], repr(exc)[:200], None])
+        if pid == 0:
+            results.extend(out)
+        return out
+    return prog
+
+
+def check_comp(ctx, cfg, l, f, rec, stats):
+    U = 2 ** f
+    op, ins, vals, extra = rec
+    base = {'cfg': list(cfg), 'type': [l, f], 'op': op, 'operands_scaled': ins, 'got_scaled': vals, 'extra': extra}
+    if op == 'EXC':
+        ctx.violation('exception op=composition', base)
+        return
+
+    def within(i, exact, bound, sig):
+        err = abs(Fr(vals[i]) - exact)
+        stats[op] = max(stats.get(op, 0.0), float(err / bound) if bound else float(err))
+        if err > bound:
+            base.update({'position': i, 'exact_scaled': str(exact), 'bound_units': str(bound), 'error_units': float(err)})
+            ctx.violation(sig, base)
+    if op == 'prod':
+        exact, bound = prod_bound(ins, U)
+        within(0, exact, bound, 'compose-bound op=prod n=%d' % len(ins))
+    elif op == 'sum':
+        within(0, Fr(sum(ins)), 0, 'not-exact op=sum')
+    elif op == 'in_prod':
+        within(0, Fr(sum(a * b for a, b in zip(*ins)), U), 1, 'compose-bound op=in_prod')
+    elif op == 'schur_prod':
+        for i, (a, b) in enumerate(zip(*ins)):
+            within(i, Fr(a * b, U), 1, 'compose-bound op=schur_prod')
+    elif op == 'scalar_mul':
+        for i, b in enumerate(ins[1]):
+            within(i, Fr(ins[0] * b, U), 1, 'compose-bound op=scalar_mul')
+    elif op == 'matrix_prod':
+        A, B = ins
+        k = 0
+        for i in range(2):
+            for j in range(2):
+                within(k, Fr(sum(A[i][h] * B[h][j] for h in range(2)), U), 1, 'compose-bound op=matrix_prod')
+                k += 1
+    elif op == 'pow':
+        x = Fr(ins[0], U)
+        within(0, x ** extra * U, extra * (1 + abs(x)) ** (extra - 1), 'pow-bound n=%d' % extra)
+    elif op == 'chain (a*b)*c':
+        a, b, c = (Fr(v, U) for v in ins)
+        within(0, a * b * c * U, 1 + abs(c), 'compose-bound op=chain-mul')
+    elif op == 'chain a*(b*c)':
+        a, b, c = (Fr(v, U) for v in ins)
+        within(0, a * b * c * U, 1 + abs(a), 'compose-bound op=chain-mul')
+    elif op == 'chain (a*b)/c':
+        a, b, c = (Fr(v, U) for v in ins)
+        j = bucket(ins[2], f)
+        within(0, a * b / c * U, 16 * (1 + abs(a * b) + Fr(1, U)) + 1 / abs(c),
+               'div-bound op=div |y|%s2^-5 (2^%d<=|y|<2^%d) type=l<=2f+1' % ('<' if j >= 5 else '>=', -(j + 1), -j))
+
+
+def composition_stream(ctx, Sim, stats_all):
+    plan = [((1, 0, False), 32, 16, 6, 4, False), ((1, 0, False), 16, 8, ctx.n(4, 6), 3, False),
+            ((1, 0, False), 64, 32, ctx.n(4, 6), 3, False),
+            ((3, 1, False), 32, 16, ctx.n(4, 5), 3, True), ((3, 1, True), 16, 8, ctx.n(3, 4), 2, True)]
+    n0 = ctx.evaluations
+    for (cfg, l, f, nmax, nlist, shared) in plan:
+        m, t, noprss = cfg
+        results = []
+        sim = Sim(m=m, t=t, no_prss=noprss, seed=ctx.seed * 19 + 5)
+        try:
+            sim.start()
+            res = H.run_limited(sim, make_comp_prog(l, f, nmax, nlist, shared, results), 900,
+                                idle_limit=8000, spins=(300 if m == 1 else 1))
+        finally:
+            H.quiet_close(sim)
+        if res is None or any(not isinstance(r, list) for r in res):
+            ctx.broken.append({'kind': 'run', 'what': 'composition program did not complete', 'cfg': list(cfg), 'type': [l, f],
+                               'res': str(res)[:200]})
+            continue
+        if any(r != res[0] for r in res[1:]):
+            ctx.violation('parties-disagree', {'cfg': list(cfg), 'type': [l, f], 'stream': 'composition'})
+        stats = {}
+        for rec in results:
+            check_comp(ctx, cfg, l, f, rec, stats)
+            ctx.case({'comp': rec[0], 'cfg': list(cfg), 't': [l, f], 'ins': rec[1], 'x': rec[3]}, nontrivial=True,
+                     kind='m=%d comp %s' % (m, rec[0]))
+        for k, v in stats.items():
+            kk = 'comp %s (%d,%d)' % (k, l, f)
+            stats_all[kk] = max(stats_all.get(kk, 0.0), round(v, 3))
+    ctx.extra['composition_cases'] = ctx.evaluations - n0
+    ctx.log('%d composition cases (prod patterns n=2..6, list ops, pow, chains)' % (ctx.evaluations - n0))
+
+
 def run(ctx):
     from lib.sim import Sim
     ok = ctx.build(['MPyC.Fxp']) and ctx.check_props()
@@ -395,6 +564,7 @@ def run(ctx):
                 stats_all[kk] = max(stats_all.get(kk, 0.0), round(v, 3))
         ctx.log('config %s done: %d cases so far' % (cfg, ncase))
     alias_stream(ctx, Sim)
+    composition_stream(ctx, Sim, stats_all)
     ctx.extra['worst_error_over_bound'] = {k: stats_all[k] for k in sorted(stats_all)}
     if ok and exprs:
         res = ctx.coq_eval(['MPyC.Fxp'], exprs, chunk=150)
